@@ -484,7 +484,7 @@ pub fn gen_c14_udp(seed: u64, _thorough: bool) -> Plan {
         config,
         knobs: KnobsPlan::simple(),
         flows: vec![],
-        extra: serde_json::json!({ "kind": kind, "name": name, "port": g.range(1, 65535), "payloads": [g.range(1, 400), g.range(0, 40)] }),
+        extra: serde_json::json!({ "kind": kind, "name": name, "port": g.range(1, 65535), "payloads": [g.range(1, 400), 0, g.range(0, 40)] }),
     }
 }
 
